@@ -4,6 +4,7 @@
 -/
 import MptModel.Impl.Convert
 import MptModel.Lemmas.Convert
+set_option linter.unusedSimpArgs false
 namespace Mpt.Conv
 open Mpt.Scalar
 
@@ -281,15 +282,6 @@ theorem strtoumax_le (s : List Nat) : (strtoumax s 0).consumed ≤ s.length := b
   · split
     · simpa using this
     · split <;> simpa using this
-
-/-- what the property allows as the outcome `(stored bits, consumed)` of an accepted text conversion:
-    the consumed prefix is a numeral of an in-range number which the stored object denotes (query mode: nothing is
-    stored), or it is blank and nothing is stored -/
-def TextOK (tgt : Ty) (s : List Nat) (d : Bool) (o : Option Nat) (n : Nat) : Prop :=
-  n ≤ s.length ∧
-  ((o = none ∧ (s.take n).all isSpace = true) ∨
-   (∃ v, numeral (s.take n) = some v ∧ inRange tgt v ∧
-      ((d = true ∧ ∃ bits, o = some bits ∧ denote tgt bits = v) ∨ (d = false ∧ o = none))))
 
 theorem noConversion_ok (tgt : Ty) (s : List Nat) (d : Bool) (o : Option Nat) (n : Nat)
     (h : noConversion s = .ok (o, n)) : TextOK tgt s d o n := by
